@@ -187,6 +187,8 @@ def main(tier):
             pre = rng.choice(["", "", "", gen_body(rng) + "; "])
             mid = rng.choice(["", "", " "])
             body = "{ " + pre + MARK + "{ " + a + "; }" + MARK + mid + b + "; }"
+            if rng.random() < 0.12:
+                body += rng.choice([" ", ""]) + gen_body(rng) + ";"  # text after the outer bracket of a compound body: may be rejected, never dropped
         line = f"insn({name}, {body})"
         k = rng.random()
         if k < 0.70:
